@@ -25,7 +25,10 @@ def stamp_blocks(scfg):
             last = tree.pop()
             tests.append((k, last.value if isinstance(last, ast.Expr) else last))
         for s in tree:
-            if isinstance(s, ast.Return):
+            if isinstance(s, ast.Return) and not b._jump_targets:
+                # sole exit of the function: the return statement itself is emitted
+                stmts.append((k, s))
+            elif isinstance(s, ast.Return):
                 if s.value is None:
                     plain_returns += 1
                 else:
